@@ -5,6 +5,7 @@ from qvlib.facts import op_local, op_place
 from qvlib.paths import Flow, agg_sites, call_matches, consumer_calls, explore, path_desc
 
 CRATES = None
+OPTIONAL_FNS = ("Worker::notify_result", "Worker::deliver_message", "Worker::update_program")      # private Worker helpers that may be inlined into their only caller
 EXEC = "quiver_core::executor::Executor"
 VALUE = "quiver_core::value::Value"
 CT = "quiver_core::bytecode::ConcreteType"
@@ -501,7 +502,10 @@ def r3_update_program_replaces(ctx):
         ctx.check(f in ext, R, "%s|%s" % (b.key, f), "self.%s is appended to (%s)" % (f, ext.get(f)),
                   "self.%s is no longer appended to in update_program" % f, b.loc(0))
     callers = sorted({k for k, _ in F.callers_of(b.key)})
-    ctx.check("quiver_environment::worker::Worker::update_program" in callers and "quiver_core::execute::execute_bytecode_sync_with" in callers, R,
+    # the worker's command handler forwards UpdateProgram (through its own update_program helper, or — helper inlined by hand — directly)
+    wside = "quiver_environment::worker::Worker::update_program" in callers or (
+        "quiver_environment::worker::Worker::update_program" not in F.fns and "quiver_environment::worker::Worker::handle_command" in callers)
+    ctx.check(wside and "quiver_core::execute::execute_bytecode_sync_with" in callers, R,
               "callers(update_program)", "update_program is reached from the worker command handler and the sync executor", "callers: %s" % callers)
 
 
